@@ -100,6 +100,8 @@ class Harness:
         self.config = {'pool': [list(p) for p in self.pool], 'logger_level': logger_level, 'aliases': aliases}
         self.ids = sorted({p[1] for p in self.pool}) + ['zz']
         self._ops = [['add', p[0]] for p in self.pool] + [['remove', i] for i in self.ids] + [['step']]
+        # building (never registering) another system object under a pool id, and shallow-copying a pool object
+        self._ops += [['construct', p[0]] for p in self.pool[:2]]
         self.cn = Canon(drop={('SystemManager', 'timestep')})
 
     def fresh(self):
@@ -194,6 +196,14 @@ class Harness:
                                     expected='SystemNotFoundError', observed='accepted')
                 if self.public(w) != before:
                     raise Violation(f'rejected remove_system({sid!r}) changed the scheduler state')
+        elif kind == 'construct':
+            # a second object with the same id and priority is built and thrown away, and the pool object is copied:
+            # neither is registered, so nothing about the schedule changes
+            src = w.objs[op[1]]
+            twin = type(src)(op[1] + '_twin', src.id, w.model, src.priority) if not isinstance(src, Collector) else \
+                type(src)(op[1] + '_twin', src.id, w.model)
+            clone = copy.copy(src)
+            del twin, clone
         elif kind == 'step':
             del w.log[:]
             if self.aliases:
@@ -387,6 +397,59 @@ def many_systems_case(case):
     return len(exp)
 
 
+PICKLE_CHILD = r'''
+import pickle, sys
+sys.path.insert(0, sys.argv[1]); sys.path.insert(0, sys.argv[2])
+import mc.props.c01 as c01
+with open(sys.argv[3], 'rb') as f:
+    m = pickle.load(f)
+for sid, prio in (('late0', 0), ('late1', 1), ('late0b', 0)):
+    m.systems.add_system(c01.PRec(sid, m, priority=prio))
+del c01.PRec.LOG[:]
+m.execute()
+print('ORDER ' + ','.join(c01.PRec.LOG))
+'''
+
+
+def pickle_child_case(case):
+    """A model is pickled to a file and loaded in a FRESH interpreter (a later session of the same study), where
+    further systems are registered: those registered in the first session still precede their equals."""
+    import os
+    import subprocess
+    import sys
+    import tempfile
+    reset_library()
+    m = Core.Model(seed=1)
+    ref = []
+    for i, p in enumerate(case['prios']):
+        m.systems.add_system(PRec(f's{i}', m, priority=p))
+        ref.append((p, f's{i}'))
+    if case.get('warm'):
+        for _ in range(case['warm']):      # registrations that came and went in the first session
+            t = PRec('tmp', m, priority=0)
+            m.systems.add_system(t)
+            m.systems.remove_system('tmp')
+    ref += [(0, 'late0'), (1, 'late1'), (0, 'late0b')]
+    exp = [sid for _, sid in sorted(ref, key=lambda e: -e[0])]
+    tree = os.path.dirname(os.path.dirname(os.path.abspath(Core.__file__)))
+    verif = os.path.dirname(os.path.dirname(os.path.dirname(os.path.abspath(__file__))))
+    with tempfile.TemporaryDirectory(prefix='c01-') as d:
+        path = os.path.join(d, 'model.pickle')
+        with open(path, 'wb') as f:
+            pickle.dump(m, f)
+        r = subprocess.run([sys.executable, '-c', PICKLE_CHILD, tree, verif, path], capture_output=True, text=True,
+                           env=dict(os.environ, PYTHONHASHSEED='0'), timeout=300)
+    line = next((ln for ln in r.stdout.splitlines() if ln.startswith('ORDER ')), None)
+    if line is None:
+        raise Violation('a pickled model could not be loaded and stepped in a fresh interpreter',
+                        observed=(r.stderr.strip().splitlines() or [''])[-1])
+    got = line[6:].split(',')
+    if got != exp:
+        raise Violation(f'model with priorities {case["prios"]} pickled, loaded in a fresh interpreter, three more systems '
+                        f'registered there: execution order', expected=exp, observed=got)
+    return len(got)
+
+
 def long_history(case):
     """One deep history: a transient system is registered and removed n times, then the order of a small set is judged.
     (Exhaustive exploration cannot reach counters that need a million registrations; this single path does.)"""
@@ -444,6 +507,16 @@ def run(ctx):
             ctx.report(case, v)
             return
     ctx.leg('many_systems', note='3000 (thorough also 12000) systems registered at once, 11 priority levels')
+    if not ctx.small:
+        for case in ({'leg': 'pickle_child', 'prios': [0, 1, 0, 1]}, {'leg': 'pickle_child', 'prios': [0, 0], 'warm': 5},
+                     {'leg': 'pickle_child', 'prios': [1, 0, -1, 0]}):
+            ctx.traces += 1
+            try:
+                ctx.transitions += hbfs._guard(pickle_child_case, case)
+            except Violation as v:
+                ctx.report(case, v)
+                return
+        ctx.leg('pickle_child', cases=3, note='model pickled, loaded in a fresh interpreter, more systems registered there')
     nc = 0
     for case in clone_cases():
         ctx.traces += 1
@@ -516,6 +589,9 @@ def replay(case):
         return
     if case['leg'] == 'clone':
         hbfs._guard(clone_case, case)
+        return
+    if case['leg'] == 'pickle_child':
+        hbfs._guard(pickle_child_case, case)
         return
     if case['leg'] == 'many_systems':
         hbfs._guard(many_systems_case, case)
